@@ -13,6 +13,11 @@ Theorem C17_limit : forall max msgs sc a, ends msgs = true ->
 Proof. exact limit_exact. Qed.
 Theorem C17_called_once : forall a, rr_called (run_app a) = 1%nat.
 Proof. exact called_once. Qed.
+(* wsgi.input holds exactly the request body: a client that leaves before the body is complete (http.disconnect in
+   place of a body message) does not get the application called with the part that had arrived (finding F59). *)
+Theorem C17_disconnect_not_served : forall max msgs sc a, leaves msgs = true -> rr_called (handle_http max msgs sc a) = 0%nat.
+Proof. exact disconnect_not_served. Qed.
+Print Assumptions C17_disconnect_not_served.
 Print Assumptions C17_limit.
 Print Assumptions C17_called_once.
 
@@ -54,6 +59,7 @@ Example C17_nonvacuous :
   rr_sends (run_app {| wa_call := []; wa_iter := [IStart 201 [(B "X-A", B "1")]; IYield (B "ab"); IRaise]; wa_has_close := true |})
     = [SStart 201 [(B "x-a", B "1")]; SBody (B "ab") true]
   /\ rr_closes (run_app {| wa_call := []; wa_iter := [IYield (B "ab")]; wa_has_close := true |}) = 1%nat
-  /\ accumulate 3 [] [(B "ab", true); (B "cd", false)] = TooLarge
-  /\ accumulate 4 [] [(B "ab", true); (B "cd", false)] = Complete (B "abcd").
+  /\ accumulate 3 [] [Some (B "ab", true); Some (B "cd", false)] = TooLarge
+  /\ accumulate 4 [] [Some (B "ab", true); Some (B "cd", false)] = Complete (B "abcd")
+  /\ accumulate 4 [] [Some (B "ab", true); None] = Gone /\ leaves [Some (B "ab", true); None] = true.
 Proof. vm_compute. repeat split. Qed.
